@@ -67,12 +67,13 @@ package s2
 //@ func (c Cap) AddPoint(p Point) Cap
 //@   fpcmp
 //@   ghost q Point
-//@   requires !vcIsNaN(float64(c.radius)) && !vcIsNaN(float64(ChordAngleBetweenPoints(c.center, p)))
 //@   ensures [first-point] c.IsEmpty() ==> vcSame(result.center, p) && result.radius == 0
-//@   ensures [added] !c.IsEmpty() ==> result.ContainsPoint(p)
-//@   ensures [kept] c.ContainsPoint(q) ==> result.ContainsPoint(q)
+//@   ensures [added] vcNoNaNDist(c, p) && !c.IsEmpty() ==> result.ContainsPoint(p)
+//@   ensures [kept] vcNoNaNDist(c, p) && c.ContainsPoint(q) ==> result.ContainsPoint(q)
 //@   ensures [centre-fixed] !c.IsEmpty() ==> vcSame(result.center, c.center)
-//@   ensures [never-shrinks] !c.IsEmpty() ==> result.radius >= c.radius
+//@   ensures [never-shrinks] vcNoNaNDist(c, p) && !c.IsEmpty() ==> result.radius >= c.radius
+
+//@ spec func vcNoNaNDist(c Cap, p Point) bool = !vcIsNaN(float64(c.radius)) && !vcIsNaN(float64(ChordAngleBetweenPoints(c.center, p)))
 
 //@ func (c Cap) AddCap(other Cap) Cap
 //@   fpcmp
